@@ -809,7 +809,7 @@ func Run(args []string) *rep.Report {
 	var long, longer *chain.Pub
 	if *family == "stall" {
 		// one scenario in eight piles up more than 256 notifications
-		if ch, err := chain.Build("ads", 3**stallAds, "c14-longer"); err == nil {
+		if ch, err := chain.Build("ads", 4**stallAds, "c14-longer"); err == nil {
 			longer, _ = chain.NewPub(ch, "c14-longer-pub", true)
 		}
 		ch, err := chain.Build("ads", *stallAds, "c14-long")
